@@ -7,6 +7,26 @@ From Coq Require Import ZifyBool Lia.
 Open Scope Z_scope.
 
 (** ================= the registry ================= *)
+(** the AOF record of a served pop (293eff6) touches the log only *)
+Lemma log_pop_rest s dbi lf k :
+  s_dbs (log_pop s dbi lf k) = s_dbs s /\ s_conns (log_pop s dbi lf k) = s_conns s /\
+  s_password (log_pop s dbi lf k) = s_password s /\ s_trk (log_pop s dbi lf k) = s_trk s /\
+  s_pubsub (log_pop s dbi lf k) = s_pubsub s.
+Proof. unfold log_pop, log_aof_in. destruct (same_db _ _); repeat split; reflexivity. Qed.
+Lemma log_served_rest s dbi lf r :
+  s_dbs (log_served s dbi lf r) = s_dbs s /\ s_conns (log_served s dbi lf r) = s_conns s /\
+  s_password (log_served s dbi lf r) = s_password s /\ s_trk (log_served s dbi lf r) = s_trk s /\
+  s_pubsub (log_served s dbi lf r) = s_pubsub s.
+Proof.
+  unfold log_served.
+  repeat match goal with |- context [match ?v with _ => _ end] => destruct v; try (repeat split; reflexivity) end;
+  apply log_pop_rest.
+Qed.
+Lemma get_db_log_pop s dbi lf k j : get_db (log_pop s dbi lf k) j = get_db s j.
+Proof. unfold get_db. rewrite (proj1 (log_pop_rest s dbi lf k)). reflexivity. Qed.
+Lemma get_db_log_served s dbi lf r j : get_db (log_served s dbi lf r) j = get_db s j.
+Proof. unfold get_db. rewrite (proj1 (log_served_rest s dbi lf r)). reflexivity. Qed.
+
 Lemma rk_eqb_refl k : rk_eqb k k = true.
 Proof. unfold rk_eqb. rewrite Z.eqb_refl, beq_refl. reflexivity. Qed.
 Lemma rk_eqb_eq a b : rk_eqb a b = true <-> a = b.
@@ -571,12 +591,12 @@ Proof.
   - assert (Deliver : forall k v, agreeW (unblock (emit b (u_conn u) (FArray [FBulk k; FBulk v])) (u_conn u)) W)
       by (intros k v; apply (agree_unblock (emit b (u_conn u) (FArray [FBulk k; FBulk v])) W u); exact HA).
     assert (Again : agreeW (snd (match recheck (bl_left st) d' (bl_keys st) with
-                                 | (Some (k, v), d'') => (set_db s (u_db u) d'', unblock (emit b (u_conn u) (FArray [FBulk k; FBulk v])) (u_conn u))
+                                 | (Some (k, v), d'') => (log_pop (set_db s (u_db u) d'') (u_db u) (bl_left st) k, unblock (emit b (u_conn u) (FArray [FBulk k; FBulk v])) (u_conn u))
                                  | (None, d'') => (set_db s (u_db u) d'', with_reg b (reregister (b_reg b) (u_db u) (u_conn u) (bl_keys st) (bl_left st) (bl_dl st) (u_at u)))
                                  end)) W).
     { destruct (recheck (bl_left st) d' (bl_keys st)) as [[[k v]|] d'']; cbn [snd]; [apply Deliver|apply agree_reregister; assumption]. }
     assert (Enil : b_wake (snd (match recheck (bl_left st) d' (bl_keys st) with
-                                 | (Some (k, v), d'') => (set_db s (u_db u) d'', unblock (emit b (u_conn u) (FArray [FBulk k; FBulk v])) (u_conn u))
+                                 | (Some (k, v), d'') => (log_pop (set_db s (u_db u) d'') (u_db u) (bl_left st) k, unblock (emit b (u_conn u) (FArray [FBulk k; FBulk v])) (u_conn u))
                                  | (None, d'') => (set_db s (u_db u) d'', with_reg b (reregister (b_reg b) (u_db u) (u_conn u) (bl_keys st) (bl_left st) (bl_dl st) (u_at u)))
                                  end)) = b_wake b)
       by (destruct (recheck (bl_left st) d' (bl_keys st)) as [[[k v]|] d'']; reflexivity).
@@ -756,8 +776,8 @@ Proof.
   unfold dispatch_command. intros H.
   destruct parts as [|first rest]; [inversion H; subst; apply conns_rel_refl|].
   destruct first; try (inversion H; subst; apply conns_rel_refl).
-  set (s0 := if mem_name (upper b) write_commands then log_aof_in s dbi (FBulk b :: rest) else s) in *.
-  assert (Hs0 : s_conns s0 = s_conns s) by (unfold s0; destruct (mem_name (upper b) write_commands); [unfold log_aof_in; destruct (same_db _ _)|]; reflexivity).
+  set (s0 := if logs_before (upper b) (FBulk b :: rest) then log_aof_in s dbi (FBulk b :: rest) else s) in *.
+  assert (Hs0 : s_conns s0 = s_conns s) by (unfold s0; destruct (logs_before (upper b) (FBulk b :: rest)); [unfold log_aof_in; destruct (same_db _ _)|]; reflexivity).
   assert (R0 : conns_rel s s0) by (apply conns_rel_eq; exact Hs0).
   destruct (beq (upper b) (bs "PING")); [inversion H; subst; exact R0|].
   destruct (beq (upper b) (bs "ECHO")); [inversion H; subst; exact R0|].
@@ -876,7 +896,7 @@ Proof.
   destruct (timeout_of (last parts FNull) oms) as [tmo|]; [|eapply Same; [reflexivity|exact H]].
   destruct (all_bulks (removelast (tl parts))) as [keys|]; [|eapply Same; [reflexivity|exact H]].
   destruct (fast_path left (get_db s dbi) keys) as [[r0|] d'].
-  - eapply Same; [|exact H]. reflexivity.
+  - eapply Same; [|exact H]. rewrite (proj1 (proj2 (log_served_rest _ _ _ _))). reflexivity.
   - destruct (c =? 0) eqn:Ec0; [eapply Same; [|exact H]; reflexivity|].
     assert (Hne : c <> 0) by lia. destruct (Hc0 Hne) as [Hnb [Hnw [cn Hcn]]].
     rewrite Hcn in H. injection H as E1 E2 E3. subst s' b' rep.
@@ -1057,7 +1077,8 @@ Proof.
   unfold wake_client.
   destruct (on_key (fst (purge_key now (get_db s (u_db u), []) (u_key u))) (u_key u) (e_pop (u_left u))) as [r d'].
   destruct (zlookup (u_conn u) (b_blk b)) as [st|];
-    [destruct (recheck (bl_left st) d' (bl_keys st)) as [[[k v]|] d'']|]; destruct r; reflexivity.
+    [destruct (recheck (bl_left st) d' (bl_keys st)) as [[[k v]|] d'']|]; destruct r; cbn [fst];
+    rewrite ?(proj1 (proj2 (log_pop_rest _ _ _ _))); reflexivity.
 Qed.
 Lemma wake_fold_conns now : forall l sb, s_conns (fst (fold_left (wake_step now) l sb)) = s_conns (fst sb).
 Proof.
